@@ -461,6 +461,47 @@ def surrogates_retention(out, seed):
                                 f"{meth} normalised the array passed to Surrogates(...): {m}"))
 
 
+def twin_lists_untouched(out, seed):
+    """A surrogate request does not edit the twin lists the object reports (Surrogates.twins() is memoised and hands out
+    the stored nested list; the compiled walk receives that very list)."""
+    import random as _random
+    from pyunicorn.timeseries import Surrogates, RecurrencePlot
+    rng = np.random.RandomState(900 + seed)
+    for case in range(4):
+        n = 60 + 20 * case
+        t = np.arange(n)
+        x = np.round(np.sin(2 * np.pi * t / (8.0 + case)) * 2) / 2 + (0.01 * rng.randn(n) if case % 2 else 0.0)
+        dim, delay, thr, md = 2, 1, 0.3, (0, 3, 7, 1)[case]
+        wit = {"n": n, "case": case, "dimension": dim, "delay": delay, "threshold": thr, "min_dist": md, "seed": seed}
+        try:
+            s = Surrogates(np.array([x, x[::-1].copy()]), silence_level=3)
+            s.embedding = s.embed_time_series_array(s.original_data, dim, delay)
+            ref = copy.deepcopy(s.twins(thr, md))
+            for rep in range(2):
+                np.random.seed(S.QSEED); _random.seed(S.QSEED)                       # noqa: E702
+                s.twin_surrogates(dim, delay, thr, md)
+                now = s.twins(thr, md)
+                out["eval"] += 1
+                if [[list(map(int, b)) for b in a] for a in now] != [[list(map(int, b)) for b in a] for a in ref]:
+                    nd = sum(1 for a, b in zip(now, ref) for u, v in zip(a, b) if list(u) != list(v))
+                    out["fail"].append(("Surrogates.twin_surrogates/twins-unchanged", wit,
+                                        f"twins() differs at {nd} states after {rep + 1} surrogate request(s)"))
+                    break
+            out["cases"].append((f"twins-untouched:{case}", any(len(b) for a in ref for b in a)))
+        except Exception as e:                                      # noqa
+            out["fail"].append(("Surrogates.twin_surrogates/twins-unchanged", wit, f"raised {type(e).__name__}: {e}"))
+        try:
+            rp = RecurrencePlot(x, threshold=thr, dim=dim, tau=delay, silence_level=3)
+            before = S.freeze(rp)
+            np.random.seed(S.QSEED); _random.seed(S.QSEED)                           # noqa: E702
+            rp.twin_surrogates(n_surrogates=1, min_dist=md)
+            out["eval"] += 1
+            for path, msg in S.changed_paths(before, S.view(rp), ignore=IGNORE_FIELDS):
+                out["fail"].append(("RecurrencePlot.twin_surrogates/object-unchanged", wit, f"{path}: {msg}"))
+        except Exception as e:                                      # noqa
+            out["fail"].append(("RecurrencePlot.twin_surrogates/object-unchanged", wit, f"raised {type(e).__name__}: {e}"))
+
+
 # --------------------------------------------------------------------------- tasks
 
 def plan_pairs(nq, tier, rng, primary):
@@ -493,6 +534,7 @@ def work(task):
                 seed = task[1]
                 statics(out, seed)
                 surrogates_retention(out, seed)
+                twin_lists_untouched(out, seed)
                 shared_data_chains(out, seed)
             elif kind == "replay":
                 _, name, seed, wit = task
